@@ -1177,6 +1177,16 @@ func (c *Conn) verifyServerCertificate(certificates [][]byte) error {
 				// server actually saw, i.e. the public name of the outer ClientHello
 				// (draft-ietf-tls-esni-17, Section 6.1.6), not Config.ServerName.
 				opts.DNSName = c.serverName
+				if opts.DNSName == "" {
+					// No server_name extension was sent (RemoveSNIExtension, a spec
+					// without one): the name to verify is still the public name of
+					// the ECH config that was offered, never "any name".
+					if configs, err := parseECHConfigList(c.config.EncryptedClientHelloConfigList); err == nil {
+						if ec := pickECHConfig(configs); ec != nil {
+							opts.DNSName = string(ec.PublicName)
+						}
+					}
+				}
 			} else if c.config.InsecureServerNameToVerify != "*" {
 				opts.DNSName = c.config.InsecureServerNameToVerify
 			}
